@@ -215,6 +215,27 @@ pub fn run(run: &Run) {
             }
         }));
     }
+    {
+        // one thread, in order: the point is what a call leaves behind for the next one
+        let big = super::pipe::multi_megabyte_strings(&super::pipe::PAYLOADS_SPACE);
+        run.par("multi_megabyte_then_small", true, |tid, _n, l| {
+            if tid != 0 {
+                return;
+            }
+            for s in &big {
+                for p in profs {
+                    l.cases += 1;
+                    if let Err(mut v) = check(p, s, l) {
+                        v.case = json!({"op": "huge_input_sequence", "profile": p.name(), "failing_input_bytes": s.len(), "note": "multi_megabyte_strings() in order on one thread"});
+                        v.expected.truncate(200);
+                        v.observed.truncate(200);
+                        run.violate(v);
+                        return;
+                    }
+                }
+            }
+        });
+    }
     super::pipe::collisions(run, "fingerprint_collisions", &|s, l| profs.iter().all(|p| match check(*p, s, l) {
         Ok(()) => true,
         Err(v) => {
@@ -288,6 +309,13 @@ pub fn run(run: &Run) {
 
 pub fn replay(_run: &Run, case: &Value) -> Check {
     let p = Prof::from_name(case.get("profile").and_then(|p| p.as_str()).unwrap_or("")).expect("profile");
+    if case.get("op").and_then(|o| o.as_str()) == Some("huge_input_sequence") {
+        let mut l = Local::default();
+        for s in super::pipe::multi_megabyte_strings(&super::pipe::PAYLOADS_SPACE) {
+            check(p, &s, &mut l)?;
+        }
+        return Ok(());
+    }
     let s = jget_str(case, "input").expect("input");
     let mut l = Local::default();
     check(p, &s, &mut l)
